@@ -48,3 +48,18 @@ Lemma example_worlds :
   /\ evalc (mkWorld (fun k => N.eqb k 1) (fun _ _ => false) 0 143) ex_pol = false
   /\ evalc (mkWorld (fun k => N.eqb k 1) (fun _ _ => false) 0 (4194304 + 144)) ex_pol = false.
 Proof. vm_compute. repeat split. Qed.
+
+(* ------------------------------------------------------------------ the limits, spelled out *)
+Lemma limits_spelled c kk m : limits_ok c kk m = true ->
+  match c with
+  | Bare => N.of_nat (length (encode (val_keyenv kk) m)) <= 10000 /\ ops_bound kk m <= 201
+  | Legacy => N.of_nat (length (encode (val_keyenv kk) m)) <= 520 /\ ops_bound kk m <= 201 /\ wit_bytes kk m <= 1650
+  | Segwitv0 => N.of_nat (length (encode (val_keyenv kk) m)) <= 3600 /\ ops_bound kk m <= 201
+                /\ wit_items m + 1 <= 100 /\ stack_bound kk m <= 1000
+  | Tap => stack_bound kk m <= 1000
+  end.
+Proof.
+  unfold limits_ok, script_len. destruct c; intro H;
+    repeat match goal with E : _ && _ = true |- _ => apply andb_true_iff in E; destruct E end;
+    repeat match goal with E : (_ <=? _) = true |- _ => apply N.leb_le in E end; auto.
+Qed.
